@@ -2,16 +2,24 @@
   YtkProofs.HeapBuilderHist — WHOLE HISTORIES of builder calls that mix calls on the root with calls on
   HANDLES (addresses returned by earlier AddContainer / AddList / Child / Lookup calls).
 
-  * `path_replace`      the generic lifting lemma: when `Lookup(segs)` from `c` finds `x`, a heap change
-                        that writes only below `x` and turns `x`'s abstraction into `xn'` is, seen from
-                        `c`, the value-level `updateAtSegs d (fun _ => xn') segs`
-  * `HOp.atPath`        the value-level call(s) (`BOp`) a heap-level call made on the handle that sits at
-                        the path string `p` corresponds to (`p = ""`: the root)
-  * `LiveAt`            the handle is what `Lookup(p)` returns now
-  * `HandleRun`         the correspondence of histories (a relation): live calls contribute
-                        `HOp.atPath`, calls on detached handles contribute nothing
-  * `HandleRun.refines` the abstraction of the root after the heap-level history is `brun` of the
-                        corresponding value-level history; the invariants hold at the end
+  1. `path_replace`        the generic lifting lemma: when `Lookup(segs)` from `c` finds `x`, a heap change
+                           that writes only below `x` and turns `x`'s abstraction into `xn'` is, seen from
+                           `c`, the value-level `updateAtSegs d (fun _ => xn') segs`; `lookupSegsH_abs`
+  2. `walkContH`           a call on a live CONTAINER handle is literally the path-level call from the root
+                           (`walkContH_append`); `live_*_refines`: the per-kind refinement lemmas
+  3. `HOp.atPath`          the value-level call(s) (`BOp`) a heap-level call made on the handle that sits at
+                           the path string `p` corresponds to (`p = ""`: the root); `restoreAt`: the
+                           fallback for calls without a path-level counterpart; `LiveAt`: the handle is
+                           what `Lookup(p)` returns now; `hstep_live_refines`: one live call
+  4. `hstep_cells_frame`   a call on a DETACHED handle changes no cell below the root; `hstep_detached`
+  5. `HandleRun`           the correspondence of histories (a relation): live calls contribute
+                           `HOp.atPath`, calls on detached handles contribute nothing;
+     `HandleRun.refines`   the abstraction of the root after the heap-level history is `brun` of the
+                           corresponding value-level history; the invariants hold at the end;
+     `HandleRun.refines_panic`  the documented `MustSet` panic happens in both models or in neither
+  6. `apartB`, `sibSepB`   executable sufficient checks for `Apart` / `SibSep` on concrete heaps
+  7. `addH_detaches_deep`  overwriting a position through a container call — plain name or list position
+                           `l[i]…[k]` (`setSlotH_along_walk`) — detaches the node that was stored there
 -/
 import YtkProofs.HeapBuilderRun
 import YtkProofs.HeapBuilderRefine
